@@ -3,9 +3,11 @@ package main
 import (
 	"bufio"
 	"context"
+	"encoding/binary"
 	"encoding/json"
 	"flag"
 	"fmt"
+	"github.com/attestantio/dirk/rules"
 	"os"
 	"os/exec"
 	"path/filepath"
@@ -244,6 +246,64 @@ func cmdCrash(args []string) int {
 			stats["trace.checked"]++
 			if h == 0 && len(samples) < 4 && len(ev) > 0 {
 				samples = append(samples, fmt.Sprintf("%s => events %v", op, evSites(ev)))
+			}
+		}
+		inst.Close(ctx)
+	}
+
+	// (b2): large batches at the rules level: every approval a batch returns is already in the store,
+	// whatever the batch size (write batches of any size must be complete before the answer)
+	{
+		inst, err := run.newInstance([]string{"10.0.0.1"})
+		if err != nil {
+			return 2
+		}
+		sizes := []int{2, 255, 1023, 1024, 1025, 1500, 2049}
+		if cf.tier == "thorough" {
+			sizes = append(sizes, 4096, 4097, 9999, 20000)
+		}
+		base := uint64(50)
+		for _, n := range sizes {
+			base += 3
+			md := make([]*rules.ReqMetadata, n)
+			rq := make([]*rules.SignBeaconAttestationData, n)
+			keys := make([][]byte, n)
+			for i := 0; i < n; i++ {
+				k := rng.Bytes(48)
+				keys[i] = k
+				md[i] = &rules.ReqMetadata{Account: fmt.Sprintf("Big/%d", i), PubKey: k, Client: "client1", IP: "10.0.0.1"}
+				rq[i] = &rules.SignBeaconAttestationData{Domain: mkDomain(domAttester, 0), Slot: base * 32, BeaconBlockRoot: fill32(1),
+					Source: &rules.Checkpoint{Epoch: base, Root: fill32(0)}, Target: &rules.Checkpoint{Epoch: base + 1, Root: fill32(1)}}
+			}
+			res := inst.Rules.OnSignBeaconAttestations(ctx, md, rq)
+			raw, err := inst.Rules.VerifRaw(ctx)
+			if err != nil {
+				return 2
+			}
+			missing, approved := 0, 0
+			first := -1
+			for i := range res {
+				if res[i] != rules.APPROVED {
+					continue
+				}
+				approved++
+				var rk [49]byte
+				copy(rk[:], keys[i])
+				rk[48] = 2
+				v, ok := raw[rk]
+				if !ok || len(v) != 17 || int64(binary.LittleEndian.Uint64(v[9:17])) < int64(base+1) {
+					missing++
+					if first < 0 {
+						first = i
+					}
+				}
+			}
+			stats[fmt.Sprintf("bigbatch.n=%d.approved", n)] = approved
+			if missing > 0 {
+				monFail = append(monFail, fmt.Sprintf("a batch of %d attestations was answered with %d approvals, but %d of the approved keys have no record of it in the store (first: position %d): they would be signed with nothing written", n, approved, missing, first))
+			}
+			if approved != n {
+				monFail = append(monFail, fmt.Sprintf("a batch of %d fresh, valid attestations got only %d approvals", n, approved))
 			}
 		}
 		inst.Close(ctx)
